@@ -99,6 +99,42 @@ Definition plat_eqb : list prop -> list prop -> bool := list_eqb prop_eqb.
 Definition inst_eqb : list string -> list string -> bool := list_eqb String.eqb.
 Definition key_eqb (a b : key) : bool := inst_eqb (k_inst a) (k_inst b) && plat_eqb (k_plat a) (k_plat b).
 
+(* ---- the canonical platform string (jsonpb.Marshaler.MarshalToString) ----------
+   Model of the library's output for strings that need no escaping ("plain":
+   ASCII 0x20..0x7f other than the quote, the backslash and the characters
+   encoding/json escapes for HTML: < > &).  Empty fields are omitted, an empty
+   property list gives "{}".  Compared with GetPlatformString() only when
+   every name and value is plain. *)
+Definition plain_char (c : ascii) : bool :=
+  let n := nat_of_ascii c in
+  Nat.leb 32 n && Nat.ltb n 128 &&
+  negb (Nat.eqb n 34 || Nat.eqb n 92 || Nat.eqb n 60 || Nat.eqb n 62 || Nat.eqb n 38).
+Fixpoint plain_string (s : string) : bool :=
+  match s with EmptyString => true | String c r => plain_char c && plain_string r end.
+Definition plain_props (ps : list prop) : bool :=
+  forallb (fun p => plain_string (fst p) && plain_string (snd p)) ps.
+
+Definition marshal_property (p : prop) : string :=
+  match fst p, snd p with
+  | EmptyString, EmptyString => "{}"
+  | n, EmptyString => "{""name"":""" ++ n ++ """}"
+  | EmptyString, v => "{""value"":""" ++ v ++ """}"
+  | n, v => "{""name"":""" ++ n ++ """,""value"":""" ++ v ++ """}"
+  end.
+Fixpoint marshal_properties (ps : list prop) : string :=
+  match ps with
+  | [] => ""
+  | p :: r => match r with
+              | [] => marshal_property p
+              | _ => marshal_property p ++ "," ++ marshal_properties r
+              end
+  end.
+Definition marshal_platform (ps : list prop) : string :=
+  match ps with
+  | [] => "{}"
+  | _ => "{""properties"":[" ++ marshal_properties ps ++ "]}"
+  end.
+
 (* ---- InstanceNameTrie ------------------------------------------------------ *)
 Inductive node := Node (value : Z) (children : clist)
 with clist := CNil | CCons (c : string) (n : node) (rest : clist).
@@ -317,7 +353,7 @@ Inductive out :=
 | XNone                                   (* key could not be built / no output *)
 | XKeyBadInstance
 | XKeyUnsorted
-| XKeyOk (inst : string) (ps : list prop) (* GetPlatformQueueName round trip *)
+| XKeyOk (inst : string) (ps : list prop) (js : string) (* GetPlatformQueueName round trip, GetPlatformString *)
 | XBool (b : bool)
 | XInt (v : Z)
 | XPanic
@@ -337,7 +373,7 @@ Definition step (s : state) (o : op) : state * out :=
     (s, match build_key a with
         | KBadInstance => XKeyBadInstance
         | KUnsorted => XKeyUnsorted
-        | KOk k => XKeyOk (join_slash (k_inst k)) (k_plat k)
+        | KOk k => XKeyOk (join_slash (k_inst k)) (k_plat k) (marshal_platform (k_plat k))
         end)
   | OKeyEq a b =>
     (s, match build_key a, build_key b with
@@ -389,7 +425,9 @@ Definition out_eqb (a b : out) : bool :=
   match a, b with
   | XNone, XNone | XKeyBadInstance, XKeyBadInstance | XKeyUnsorted, XKeyUnsorted
   | XPanic, XPanic | XDone, XDone | XRouteErr, XRouteErr => true
-  | XKeyOk i p, XKeyOk i' p' => String.eqb i i' && plat_eqb p p'
+  (* b is the model's output; the platform string is determined for plain strings only *)
+  | XKeyOk i p js, XKeyOk i' p' js' =>
+    String.eqb i i' && plat_eqb p p' && (negb (plain_props p') || String.eqb js js')
   | XBool x, XBool y => Bool.eqb x y
   | XInt x, XInt y => Z.eqb x y
   | XReg x, XReg y => reg_out_eqb x y
